@@ -141,6 +141,18 @@ async def body_dump_async(req):
     return out
 
 
+def scribble(request):
+    """What a handler may do with the mappings of its own request once it has looked at them: empty them, add to them. The next
+    request must not see any of it."""
+    for name in ("path_params", "cookies"):
+        try:
+            mp = getattr(request, name)
+            mp.clear()
+            mp["scribbled"] = "by an earlier request"
+        except Exception:  # noqa - read-only mappings are fine too
+            pass
+
+
 def echo_app(iface, read_body=True, tag=None):
     m = mod(iface)
     if iface == "wsgi":
@@ -148,6 +160,7 @@ def echo_app(iface, read_body=True, tag=None):
         def app(request):
             d = dump_request_sync(request, read_body and request.method == "POST")
             d["tag"] = tag
+            scribble(request)
             return m.JSONResponse(d)
     else:
         @m.request_response
@@ -156,6 +169,7 @@ def echo_app(iface, read_body=True, tag=None):
             if read_body and request.method == "POST":
                 d.update(await body_dump_async(request))
             d["tag"] = tag
+            scribble(request)
             return m.JSONResponse(d)
     return app
 
@@ -258,6 +272,10 @@ def body_requests(tier="quick"):
             splits += [[B[:i], B[i:j], B[j:]] for i in range(1, len(B)) for j in range(i + 1, len(B))]
         for chunks in splits:
             yield kind, SV.AReq(method="POST", path="/p", headers=headers, chunks=chunks)
+    # url-encoded bodies with raw (not percent-encoded) bytes above 0x7F, with and without a charset parameter
+    for raw in (b"name=caf\xe9", b"name=caf\xc3\xa9", b"\xe4\xb8\xad=1&b=\xff", b"a=%E9&b=%C3%A9"):
+        for ct in ("application/x-www-form-urlencoded", "application/x-www-form-urlencoded; charset=utf-8", "application/x-www-form-urlencoded; charset=latin-1", "application/x-www-form-urlencoded; charset=gbk"):
+            yield "urlencoded-raw", SV.AReq(method="POST", path="/p", headers=[("Content-Type", ct)], chunks=[raw])
     # forms with as many parts as the default limit admits, one fewer, and one more
     for n in (323, 324, 325):
         parts = [MP.part(f"k{i % 5}", None if i % 4 else "f.bin", b"v") for i in range(n)]
